@@ -8,5 +8,7 @@ s = open(p).read()
 s = re.sub(r'<!-- SEEDTABLE-BEGIN -->.*?<!-- SEEDTABLE-END -->', lambda m: '<!-- SEEDTABLE-BEGIN -->\n' + tab + '<!-- SEEDTABLE-END -->', s, flags=re.S)
 reach = subprocess.run(['python3', root + '/tools/reachtable.py'], capture_output=True, text=True).stdout
 s = re.sub(r'<!-- REACHTABLE-BEGIN -->.*?<!-- REACHTABLE-END -->', lambda m: '<!-- REACHTABLE-BEGIN -->\n' + reach + '<!-- REACHTABLE-END -->', s, flags=re.S)
+mut = subprocess.run(['python3', root + '/tools/muttable.py'], capture_output=True, text=True).stdout
+s = re.sub(r'<!-- MUTTABLE-BEGIN -->.*?<!-- MUTTABLE-END -->', lambda m: '<!-- MUTTABLE-BEGIN -->\n' + mut + '<!-- MUTTABLE-END -->', s, flags=re.S)
 open(p, 'w').write(s)
 print('design updated')
